@@ -188,6 +188,13 @@ def check_rules(ctx):
                         guarded_bases.add(_exp(v.args[0]))
             if isinstance(n, ast.If) and isinstance(n.test, ast.Call) and dotted(n.test.func) == "isinstance" and len(n.test.args) == 2 and norm(n.test.args[1]).split(".")[-1] == "ControlledGate":
                 guarded_bases.add(_exp(n.test.args[0]))
+        # "operations no rule applies to are kept unchanged": a circuit may hold non-gate operations (MultiPhaseOperation,
+        # ResetOperation), which have no `.gate`; the predicate is asked about every operation of the circuit, so it has to
+        # answer False for them instead of raising
+        op_param = positional_params(pred.node)[1] if len(positional_params(pred.node)) > 1 else None
+        gate_reads = [n for n in walk_local(pred.node) if isinstance(n, ast.Attribute) and n.attr == "gate" and isinstance(n.value, ast.Name) and n.value.id == op_param]
+        type_guard = any(isinstance(n, ast.Call) and dotted(n.func) == "isinstance" and len(n.args) == 2 and norm(n.args[0]) == op_param and "GateOperation" in norm(n.args[1]) for n in walk_local(pred.node)) or any(isinstance(n, ast.Call) and dotted(n.func) in ("hasattr", "getattr") and len(n.args) >= 2 and norm(n.args[0]) == op_param and const_str(n.args[1]) == "gate" for n in walk_local(pred.node))
+        ctx.check(not gate_reads or type_guard, R4, ci.key + ":non-gate-operations", "the predicate answers False for operations that are not gate operations", f"the predicate reads `{op_param}.gate` without testing that the operation is a GateOperation: for a circuit containing a MultiPhaseOperation or ResetOperation, decomposition raises AttributeError instead of keeping that operation unchanged", pred)
         loose = [u for u, base in unwraps if base is None or base not in guarded_bases]
         ctx.check(not loose, R4, ci.key + ":wrapper-discrimination", "the predicate looks through a wrapper only after testing that it is a ControlledGate", f"the predicate reads `{short(loose[0]) if loose else ''}` without first testing isinstance(..., ControlledGate): Dagger, Power and Exponential wrappers have a wrapped_gate too, so e.g. {names[0] if names else 'the gate'}.dagger is matched and replaced by the decomposition of the un-modified gate", f"{pred.module.relpath}:{loose[0].lineno}" if loose else pred)
         if loose:
